@@ -62,7 +62,7 @@ Good(plat, fmt) ==
     [plat |-> plat, args |-> "ok", root |-> "right", certfile |-> "ok", file |-> BaseFile,
      btc |-> Btc, mh |-> BaseHash,
      targets |-> IF plat = "ledger" THEN <<"ui", "signer">> ELSE <<"quote">>, brk |-> <<>>,
-     plen |-> BaseLen(plat),
+     plen |-> BaseLen(plat), embed |-> "none", ename |-> "na",
      ui |-> IF plat = "ledger"
             THEN [exists |-> "t", chain |-> "intact", hdr |-> "ok", sepc |-> "dot", key |-> 1,
                   len |-> "exact", at |-> "none", m |-> "na", n |-> 0, tail |-> "any"]
@@ -153,11 +153,15 @@ TargetLists(plat) ==
          \cup {<<"quote", "quote">>, <<"ca", "ca", "quote">>, <<"ca", "quote", "quote">>}
 DevTargets == /\ inp.targets = DocTargets(inp.plat)
               /\ \E l \in TargetLists(inp.plat) : Dev(Sync([inp EXCEPT !.targets = l]))
+\* the file embeds a self-signed CA as an element of its own (sgx)
+DevEmbed == /\ ~IsL /\ inp.embed = "none"
+            /\ \E e \in {"chainroot", "chosenroot"}, n \in {"sgx_root", "near"} :
+                   Dev([inp EXCEPT !.embed = e, !.ename = n])
 \* the file is long
 DevLen   == /\ inp.plen = BaseLen(inp.plat)
             /\ \E n \in ScaleLens(inp.plat) : Dev([inp EXCEPT !.plen = n])
 \* ... which is combined with the deviations that concern the chain only
-ChainDevs == Len(inp.brk) + (IF inp.root = "wrong" THEN 1 ELSE 0)
+ChainDevs == Len(inp.brk) + (IF inp.root = "wrong" THEN 1 ELSE 0) + (IF inp.embed # "none" THEN 1 ELSE 0)
              + (IF inp.targets # DocTargets(inp.plat) THEN 1 ELSE 0)
 \* one more element does not verify under its certifier
 ElemOrder == IF IsL THEN LedgerOrder ELSE SgxOrder
@@ -326,7 +330,7 @@ S_Return     == /\ pc = "s13" /\ pc' = "done" /\ outcome' = "return" /\ site' = 
                                              !.mrsigner = PySlice(S.quote, 176, 208)], S.pow)
                 /\ UNCHANGED <<inp, ndev, nfile, sys>>
 
-EnvNext == DevArgs \/ DevRoot \/ DevCert \/ DevFile \/ DevHash \/ DevUi \/ DevPow \/ DevTargets \/ DevBrk \/ DevLen \/ Start
+EnvNext == DevArgs \/ DevRoot \/ DevCert \/ DevFile \/ DevHash \/ DevUi \/ DevPow \/ DevTargets \/ DevBrk \/ DevLen \/ DevEmbed \/ Start
 SysNext == \/ L_NoCert \/ L_NoPub \/ L_RootHex \/ L_RootParse \/ L_LoadKeys \/ L_HashKeys \/ L_BtcKey
            \/ L_LoadCert \/ L_Validate \/ L_NoUi \/ L_UiInvalid \/ L_UiHeader \/ L_UiLength \/ L_UiKey \/ L_UiPrint
            \/ L_NoSigner \/ L_SgInvalid \/ L_SgHeader \/ L_SgLength \/ L_SgHash \/ L_Return
